@@ -516,9 +516,9 @@ func (w *World) Project() *State {
 				gs.Api[n.Name] = w.ProjectNode(n)
 			}
 		}
+		gs.View = map[string]NodeObj{}
 		if lv := w.LagView[g]; lv != nil {
 			gs.Lag = true
-			gs.View = map[string]NodeObj{}
 			for id, n := range lv {
 				gs.View[id] = w.ProjectNode(n)
 			}
